@@ -468,7 +468,9 @@ func streamCb(o opts) {
 			}
 			ch <- [2]int{k, v}
 		}
+		ttlOf := map[int]time.Duration{}
 		swc := func(k, v int, ttl time.Duration) error {
+			ttlOf[v] = ttl
 			e := c.SetWithCallback(k, v, ttl, cb)
 			w.O(ints(1, int64(k), int64(v), int64(ttl)), &toks{})
 			return e
@@ -551,7 +553,7 @@ func streamCb(o opts) {
 		case 14: // random call sequence over two keys; the model decides what may fire
 			checkExpect = false
 			val := 10
-			ttls := []time.Duration{ttl, 2 * ttl, ttl + 3*time.Microsecond, kioshun.NoExpiration, 0}
+			ttls := []time.Duration{ttl, 2 * ttl, ttl + 3*time.Microsecond, kioshun.NoExpiration, 0, -2 * time.Second}
 			closedNow := false
 			for i, n := 0, 3+r.Intn(8); i < n; i++ {
 				k := 1 + r.Intn(2)
@@ -580,6 +582,9 @@ func streamCb(o opts) {
 		got := fired(ch, wait)
 		seen := map[[2]int]int{}
 		for _, x := range got {
+			if t, ok := ttlOf[x[1]]; ok && t <= 0 {
+				m.violate("C20", fmt.Sprintf("%s: the callback of SetWithCallback(%d,%d,ttl=%d) ran although that entry never expires (DefaultTTL is 0)", ctx, x[0], x[1], int64(t)), ctx)
+			}
 			seen[x]++
 			if seen[x] > 1 {
 				m.violate("C20", fmt.Sprintf("%s: callback for (%d,%d) ran %d times", ctx, x[0], x[1], seen[x]), ctx)
